@@ -121,15 +121,17 @@ CmdSet(id, new) ==
           /\ Answer("cmdset", arg, "ok", <<>>)
 
 (* mpt_dispatch_set(disp, id, handler, tok): register, refused when taken *)
-Set(id) ==
-  LET arg == [id |-> id, tok |-> NewTok] IN
+SetCore(a, arg, id) ==
   /\ ntok' = NewTok /\ UNCHANGED <<def, err>>
   /\ IF Registered(id)
      THEN /\ UNCHANGED <<kind, slots, tab, ever>> /\ fin' = FinNew
-          /\ Answer("set", arg, "refused", <<>>)
+          /\ Answer(a, arg, "refused", <<>>)
      ELSE /\ PlaceNew(id, NewTok)
           /\ tab' = TabSet(id, NewTok) /\ fin' = FinNew /\ ever' = ever \cup {NewTok}
-          /\ Answer("set", arg, "ok", <<>>)
+          /\ Answer(a, arg, "ok", <<>>)
+Set(id) == SetCore("set", [id |-> id, tok |-> NewTok], id)
+\* ... under the hash of a command text (the id is computed by mpt_hash)
+SetText(t) == SetCore("settext", [text |-> t, tok |-> NewTok], Djb2(t))
 
 (* mpt_dispatch_set(disp, id, NULL, NULL): unregister *)
 Clear(id) ==
@@ -149,6 +151,14 @@ SetError ==
   /\ fin' = (IF err > 0 THEN FinUp({err}) ELSE fin) @@ (NewTok :> 0)
   /\ UNCHANGED <<kind, slots, def, tab>>
   /\ Answer("seterror", arg, "ok", IF err > 0 THEN <<FinCall(err)>> ELSE <<>>)
+
+(* choose the default id explicitly (mpt++ dispatch::set_default): only a *)
+(* registered id can become the default                                   *)
+SetDefault(id) ==
+  LET arg == [id |-> id] IN
+  /\ UNCHANGED <<kind, slots, err, tab, fin, ever, ntok>>
+  /\ IF Registered(id) THEN def' = id /\ Answer("setdefault", arg, "ok", <<>>)
+     ELSE UNCHANGED def /\ Answer("setdefault", arg, "refused", <<>>)
 
 (* mpt_command_reserve(&disp->_d, w) followed by taking the slot over     *)
 (* (cmd->cmd = handler, cmd->arg = tok) as mpt_connection_await does.     *)
@@ -186,6 +196,20 @@ Fini ==
   /\ tab' = << >> /\ UNCHANGED <<ntok, ever>>
   /\ fin' = FinUp({slots[i].tok : i \in Live} \cup (IF err > 0 THEN {err} ELSE {}))
   /\ Answer("fini", [x |-> 0], "ok", FinCalls(slots) \o (IF err > 0 THEN <<FinCall(err)>> ELSE <<>>))
+
+(* mpt_command_clear(&disp->_d): all registrations notified, buffer kept *)
+ClearAll ==
+  /\ slots' = <<>> /\ tab' = << >> /\ UNCHANGED <<kind, def, err, ntok, ever>>
+  /\ fin' = FinUp({slots[i].tok : i \in Live})
+  /\ Answer("clearall", [x |-> 0], "ok", FinCalls(slots))
+(* dropping the table's buffer without clearing it first (mpt_array_clone  *)
+(* with no source): a buffer created by mpt_command_set carries the        *)
+(* command traits, whose finaliser notifies every live entry               *)
+Drop ==
+  /\ kind # "raw"
+  /\ kind' = "none" /\ slots' = <<>> /\ tab' = << >> /\ UNCHANGED <<def, err, ntok, ever>>
+  /\ fin' = FinUp({slots[i].tok : i \in Live})
+  /\ Answer("drop", [x |-> 0], "ok", FinCalls(slots))
 
 ---------------------------------------------------------------------------
 (* dispatch *)
@@ -256,9 +280,11 @@ Unreg   == L(200)                    \* an id nobody registers
 
 Next ==
   \/ \E id \in RegIds : Set(id) \/ Clear(id) \/ CmdSet(id, 1) \/ CmdSet(id, 0)
+  \/ \E t \in Texts : SetText(t)
+  \/ \E id \in RegIds : SetDefault(id)
   \/ SetError
   \/ \E w \in Widths : Reserve(w, ReserveId(w), ReserveOK(w))
-  \/ Fini
+  \/ Fini \/ ClearAll \/ Drop
   \/ \E id \in RegIds \cup {Unreg} \cup LiveIds, hr \in HRs : EmitId(id, hr)
   \/ \E n \in SmallIds \cup {200}, hr \in HRs : EmitMsg(<<n, 7>>, hr)
   \/ \E hr \in HRs : EmitMsg(<<>>, hr) \/ EmitNone(hr)
@@ -266,6 +292,7 @@ Next ==
         \/ HashEmit(CommandCmd, 58, t \o <<58, 122>>, 0, hr)     \* "text:z", separator ':'
         \/ HashEmit(CommandCmd, 0, t \o <<0, 122>>, 1, hr)       \* zero-terminated, split after 1 byte
         \/ HashEmit(0, 58, t, Len(t), hr)                        \* not a command message: whole text
+  \/ \E hr \in HRs : HashEmit(CommandCmd, 58, <<58, 122>>, 2, hr)   \* empty command text
 
 Spec == Init /\ [][Next]_vars
 
@@ -306,7 +333,8 @@ ReserveUnique == [][(obs'.a = "reserve" /\ obs'.exp.ret = "ok") =>
                      (obs'.exp.id \notin LiveIds /\ obs'.exp.id # Zero /\ ~Lt(MaxFor(obs'.arg.w), obs'.exp.id))]_vars
 \* default bookkeeping: changes only when a handler answered with the Default flag
 DefaultFollows == [][(def' # def) =>
-     \/ obs'.a = "fini"
+     \/ obs'.a \in {"fini", "init"}
+     \/ obs'.a = "setdefault" /\ Registered(def')
      \/ obs'.a = "emitnone" /\ obs'.exp.ret = -1 /\ def' = Zero
      \/ obs'.a \in {"emit", "emitmsg", "emitnone"} /\ obs'.exp.ret # -1]_vars
 =============================================================================
